@@ -150,4 +150,33 @@ Proof.
   injection H as <- <- <- <- <-. rewrite <- (Hlen _ _ Hix). exact Hix.
 Qed.
 
+
+(* into_iter(): the inner parser runs exactly once (in make_iter); the items are exactly the items of its output, in
+   order, handed out without touching the input; a failing inner parser fails the whole iteration *)
+Lemma into_iter_rest a ctx : forall l fuel sacc sacce p r, length l < fuel ->
+  sdrive fuel (IIntoIter a) ctx (SInto (Some l)) None sacc sacce p r
+  = Some (Some (rev (map (fun x => (x, p, p)) l) ++ sacc, true, p, sacce), r).
+Proof.
+  induction l as [|x l IH]; intros fuel sacc sacce p r Hf; (destruct fuel as [|fuel]; [cbn in Hf; lia|]); cbn [Sem.sdrive it_snext].
+  - cbn. now rewrite app_nil_r.
+  - cbn [option_map]. rewrite IH by (cbn in Hf; lia). rewrite app_nil_r. cbn [map rev]. now rewrite <- app_assoc.
+Qed.
+
+Lemma into_iter_spec a ctx fuel p r v p1 e1 r1 : length (val_items v) < fuel ->
+  run a ctx p r = Some (Some (v, p1, e1), r1) ->
+  exists items, sdrive fuel (IIntoIter a) ctx (SInto None) None [] [] p r = Some (Some (items, true, p1, e1), r1)
+    /\ map (fun it => fst (fst it)) (rev items) = val_items v.
+Proof.
+  intros Hf E. destruct fuel as [|fuel]; [lia|]. cbn [Sem.sdrive it_snext]. rewrite E.
+  destruct (val_items v) as [|x l] eqn:Ev.
+  - exists []. split; reflexivity.
+  - cbn [option_map]. cbn in Hf. rewrite into_iter_rest by lia. cbn [app].
+    eexists. split; [reflexivity|]. rewrite rev_app_distr, rev_involutive. cbn. f_equal.
+    rewrite map_map. cbn. now rewrite map_id.
+Qed.
+
+Lemma into_iter_fail a ctx fuel p r r1 : run a ctx p r = Some (None, r1) ->
+  sdrive (S fuel) (IIntoIter a) ctx (SInto None) None [] [] p r = Some (None, r1).
+Proof. intros E. cbn [Sem.sdrive it_snext]. now rewrite E. Qed.
+
 End Iter.
